@@ -64,4 +64,13 @@ def polled (w : WSt) (selfWoken progress : Bool) : WSt × List Viol :=
     ({ w with idleSelfWakes := n }, if n ≥ 4 then ["C08 connection-task-wakes-itself-without-progress"] else [])
   else ({ w with idleSelfWakes := 0 }, [])
 
+/-- C06, no lost wake-up of the connection task: a poll of the connection that nobody asked for must
+    find nothing to write.  `parked`: the previous poll returned Pending; `woken`: the connection's
+    waker was fired since then; `input`: the transport changed since then (octets from the peer, EOF,
+    an error, more room for writes) — which wakes the task through the transport's own waker.  If
+    none of these happened and the poll nevertheless writes frames, a handle had queued that work
+    without waking the task: in an event-driven program this poll would never have run. -/
+def unsolicitedPoll (parked woken input wrote : Bool) : List Viol :=
+  if parked && !woken && !input && wrote then ["C06 work-was-queued-without-waking-the-connection-task"] else []
+
 end H2V.Spec.Verdict
